@@ -157,6 +157,14 @@ def run(tier, replay=None):
     cli_inputs += [("string", {"main.s": "".join(ALPHABET[i - 1] for i in c["s"])}) for c in sres[0][:: max(1, len(sres[0]) // (40 if tier == "quick" else 400))]]
     cli_inputs += [("include-graph", dict(f, **{"main.s": f["a.s"]})) for f in gfiles[:: max(1, len(gfiles) // (25 if tier == "quick" else 300))]]
     cli_inputs += [("mutation", {"main.s": m}) for m in mutations(corpus.VIOLATING, r, 10 if tier == "quick" else 150)]
+    # include cycles that do not pass through the base file, in three spellings of the path (always run)
+    for pre in ("", "./", "../" + "x/"):
+        sub = "x/" if pre.startswith("../") else ""
+        for cyc in ({"b.s": ["b.s"]}, {"b.s": ["c.s"], "c.s": ["b.s"]}, {"b.s": ["c.s"], "c.s": ["c.s"]}):
+            files = {"main.s": f'main:\n    li a7, 10\n    ecall\n.include "{sub}b.s"\n'}
+            for f in ("b.s", "c.s"):
+                files[sub + f] = f"l_{f[0]}:\n    nop\n" + "".join(f'.include "{pre}{t}"\n' for t in cyc.get(f, []))
+            cli_inputs.append(("include-cycle", files))
     # text with multi-byte characters in front of a reported position (pretty printer: columns vs bytes)
     WIDE = {"é", "€", "😀", "\u3000", "\u00a0"}
     wide = []
@@ -186,6 +194,7 @@ def run(tier, replay=None):
             d = os.path.join(td, str(k))
             os.makedirs(d)
             for n, t in files.items():
+                os.makedirs(os.path.dirname(os.path.join(d, n)), exist_ok=True)
                 open(os.path.join(d, n), "w", newline="", encoding="utf-8").write(t)
             for bname, b in bins:
                 ms = modes if cls not in ("string", "string-wide", "wide-line", "repeat") else (modes[:4] if cls == "string" else [[], ["--no-color"]])
